@@ -34,6 +34,8 @@ type gitLogRec struct {
 	Exit      int      `json:"exit"`
 	Faulted   bool     `json:"faulted"`
 	Pid       int      `json:"pid"`
+	OutText   string   `json:"out_text"`
+	Ended     bool     `json:"-"` // an "end" line was seen (false: git-sizer was gone before the command ended)
 }
 
 func buildFakeGit(c *Ctx) string {
@@ -94,6 +96,7 @@ func readGitLog(path string) []gitLogRec {
 			out = append(out, r.gitLogRec)
 		} else if i, ok := idx[r.Pid]; ok {
 			out[i] = r.gitLogRec
+			out[i].Ended = true
 		}
 	}
 	return out
@@ -117,6 +120,7 @@ type faultRun struct {
 	Stdout   string
 	Stderr   string
 	Log      []gitLogRec
+	Events   []map[string]interface{}
 	Hit      bool
 	Where    string
 }
@@ -156,6 +160,7 @@ func (e *c10Env) runUnderFake(id string, dir string, args []string, fp *faultPla
 		fr.Exit, fr.TimedOut = res.Exit, res.TimedOut
 		fr.Stdout, fr.Stderr = string(res.Stdout), string(res.Stderr)
 		fr.Log = readGitLog(logf)
+		fr.Events = protoEvents(fr.Log)
 		if !res.TimedOut {
 			break
 		}
@@ -287,6 +292,13 @@ func checkC10(c *Ctx) {
 	if res == nil || res.Violated != "AllOrNothing" {
 		Infra("Pipeline1 with DropWaitError=TRUE should refute AllOrNothing")
 	}
+	// the process-level protocol: every command-line shape x every outcome of every invocation
+	res, err := tlcrun.Run(tlcrun.Job{Module: "ProtoMC", Workers: 4,
+		Cfg: "SPECIFICATION Spec\nCONSTANTS\n  NRootsMax = 2\n  NGroupsMax = 2\nINVARIANTS TypeOK AllOrNothing NeverMeasuresShallow ConfigNotConsultedWhenGiven ReadOnly NoScanForHelp BatchAfterPipe1\nPROPERTY Terminates\nCHECK_DEADLOCK FALSE\n"})
+	if err != nil || !res.Completed {
+		Infra("ProtoMC: %v\n%s\n%s", err, res.ErrorText, res.Tail)
+	}
+	c.AddTLC("Proto", res.Generated, res.Distinct, res.Wall, "768 command-line shapes x all outcomes of all git invocations: AllOrNothing, NeverMeasuresShallow, ConfigNotConsultedWhenGiven, ReadOnly, NoScanForHelp, BatchAfterPipe1, Terminates")
 
 	env := newScanEnv(c, true, false)
 	e := &c10Env{c: c, env: env, fake: buildFakeGit(c)}
@@ -401,6 +413,7 @@ func checkC10(c *Ctx) {
 				}(i)
 			}
 			wg.Wait()
+			all = append(all, results...)
 			var cs []map[string]interface{}
 			cs = append(cs, base.judgeCase(base.Stdout, plan))
 			for i := range results {
@@ -445,6 +458,19 @@ func checkC10(c *Ctx) {
 			all = append(all, e.invalidInputs(sc, repo, ri, "")...)
 		}
 	}
+	// every recorded run, faulted or not, must be a behaviour of the process-level protocol (shape layer)
+	var prs []protoRun
+	for _, r := range all {
+		if r.TimedOut {
+			continue
+		}
+		pr := protoRun{ID: r.ID, Args: r.Args, Events: r.Events, Exit: r.Exit, Stdout: r.Stdout}
+		if strings.HasPrefix(r.ID, "badopt-") {
+			pr.Kinds = []string{"scan", "error"}
+		}
+		prs = append(prs, pr)
+	}
+	reportProto(c, "fault and invalid-input runs", prs)
 	c.Ev.Exhaustive = false
 }
 
